@@ -13,7 +13,7 @@ from ..runner import Skip, Violation, fst_site
 ID = 'C01'
 LEVEL = 'exploration'
 TECHNIQUE = 'stateful property-based testing (Hypothesis edit sequences) with CPython ast.parse as oracle'
-RULE = ('Hypothesis-generated edit sequences (1-8 steps quick, 1-25 thorough) on module sources drawn from real stdlib/repo '
+RULE = ('Hypothesis-generated edit sequences (1-8 steps quick, 1-25 thorough), next to deterministic one-step / two-step grids on saturated, trivia-dense and multi-byte container programs, on module sources drawn from real stdlib/repo '
         'windows, the maintainers\' snippet inputs and synthetic grammar-corner templates, optionally layout-mutated; each '
         'step = op x target(node or list container, chosen modulo the live tree) x donor(category-compatible, src/AST/FST '
         'form) x options with norm=True, raw=False. After every step that returns normally: '
@@ -46,6 +46,14 @@ def strategy(tier):
     return em.case_strategy(max_steps=params(tier)['max_steps'], max_lines=50)
 
 
+# multi-byte text on the lines of small comma / `=` separated containers (statement-level ones included): positions fixed up after a slice edit are byte offsets
+MB_SLICE_PROGRAMS = (
+    'del d["ключ"], b, c\nglobal ñ, ö, ü\nimport módulo, otro as ñ, z\nfrom . import añ, bö as cü, d',
+    'ä = ö = ü = "ß", 2\nwith "é" as á, "í" as ó, u: pass\nx = ["日本", b, c]; y = {"語": 1, "k": 2, **z}\nf("ü", k="ö", *a, **b)',
+    '@"ñ".d\n@e("ö")\nclass Ç("É", m="Ñ"): pass\ndef ƒ(α, β="γ", *δ, ε, **ζ): return α or "η" and θ or ι\nr = "κ" < λ <= "μ" != ν',
+    'match "ñ":\n    case ["ö", b, *c]: pass\n    case {"ü": 1, "k": v, **r}: pass\n    case Ç("é", k="í"): pass\n    case "á" | "ó" | 3: pass\ntry: pass\nexcept* ("É", Ñ): pass\nelse: "ß"; b; c',
+)
+
 def enumerate_cases(tier, shard, nshards, seed):
     """Single-edit grid over the saturated and template programs (every node x a few donors x forms x pars, plus remove); the drawn histories
     of strategy() come on top."""
@@ -56,6 +64,7 @@ def enumerate_cases(tier, shard, nshards, seed):
     yield from em.single_edit_grid(gen.TRIVIA_PROGRAMS + gen.FSTRING_PROGRAMS, tier, shard, nshards, seed, n_expr=4, line_comments=True, cut=True, thin=2 if tier == 'quick' else 1)
     yield from em.slice_edit_grid(gen.TRIVIA_PROGRAMS, tier, shard, nshards, seed, optsets=({}, {'trivia': 'all'}, {'pep8space': False}), thin=2 if tier == 'quick' else 1)
     yield from em.ancestor_two_step_grid(gen.TRIVIA_PROGRAMS + gen.SYN_PROGRAMS, tier, shard, nshards, seed, thin=2 if tier == 'quick' else 1)
+    yield from em.slice_edit_grid(MB_SLICE_PROGRAMS, tier, shard, nshards, seed, optsets=({},), thin=1)
 
 
 def _context_rich(src_lines, extent) -> bool:
